@@ -45,7 +45,10 @@ OTHER = ["mix", "deser", "lazy", "big-align", "unnamed", "shared", "subgraph", "
          "uninit", "uninit-mix", "uninit-sub",
          # subgraph shapes: zero-node branches that return their own initializer, the uninitialized one in the else branch,
          # two levels deep (If inside an If branch)
-         "subgraph-empty", "subgraph-deep", "uninit-sub-empty", "uninit-sub-else", "uninit-sub-deep", "uninit-sub-deep-empty"]
+         "subgraph-empty", "subgraph-deep", "uninit-sub-empty", "uninit-sub-else", "uninit-sub-deep", "uninit-sub-deep-empty",
+         # sibling branches owning initializers of the SAME name (separate scopes, legal): all initialized, the
+         # uninitialized one first / second in traversal order, and at the deeper level (seeded C20e keyed by name)
+         "subgraph-samename", "uninit-sub-samename", "uninit-sub-samename-else", "uninit-sub-samename-deep"]
 MODELS = SINGLE + OTHER
 # thorough tier: every ordered pair of (dtype, size) atoms as two initializers of one model (write order is by size,
 # offsets depend on the neighbour); destination/verbose/path stay at their defaults for these
@@ -215,13 +218,15 @@ def build(mid, root, full_model_path):
         uninit = mid.startswith("uninit-sub")
         empty = mid.endswith("empty")
         deep = "deep" in mid
-        bad_label = "else" if mid == "uninit-sub-else" else "then"
+        bad_label = "else" if mid in ("uninit-sub-else", "uninit-sub-samename-else") else "then"
+        samename = "samename" in mid
 
         def branch(label, seed, bad):
+            wname = "w" if samename else f"{label}_w"
             if bad:
-                sv, sraw = ir.Value(name=f"{label}_w"), None
+                sv, sraw = ir.Value(name=wname), None
             else:
-                sv, sraw = mem(f"{label}_w", "f32", "1K", seed)
+                sv, sraw = mem(wname, "f32", "1K", seed)
             sub_tracked.append((label, sv.name, sv, sraw))
             if empty:
                 # no node at all: the branch returns its own initializer
@@ -480,15 +485,17 @@ def check_saved(built, before, full_model_path, files_before):
         loaded = ir.load(full_model_path)
         seen = {}
         for label, g in _all_graphs(loaded.graph):
+            # built.tracked labels a subgraph by its graph name ('then', 'else', 'then_then', ...), the main graph 'main';
+            # sibling subgraphs may own initializers of the same name, so the key is (graph, name)
+            glabel = "main" if label == "main" else (g.name or label)
             for k, v in g.initializers.items():
                 if v.const_value is None:
                     out.append(("roundtrip-tensor", f"{label}:{k} has no value after ir.load"))
                     continue
-                seen[(label.split("/")[0] if False else label, k)] = v.const_value
-        # subgraph labels: built.tracked uses 'then'/'else'; map by initializer name (names are unique per model)
-        by_name = {k[1]: t for k, t in seen.items()}
+                seen[(glabel, k)] = v.const_value
+        by_name = seen
         for (label, name), raw in expected.items():
-            t = by_name.get(name)
+            t = by_name.get((label, name))
             if t is None:
                 out.append(("roundtrip-tensor", f"{label}:{name} missing after ir.load"))
                 continue
@@ -499,11 +506,11 @@ def check_saved(built, before, full_model_path, files_before):
                 continue
             if got != raw:
                 out.append(("roundtrip-tensor", f"{label}:{name} bytes differ after ir.load ({len(got)} vs {len(raw)})"))
-            orig = [v for l2, n2, v, r2 in built.tracked if n2 == name][0].const_value
+            orig = [v for l2, n2, v, r2 in built.tracked if n2 == name and l2 == label][0].const_value
             if t.dtype != orig.dtype or list(t.shape) != list(orig.shape):
                 out.append(("roundtrip-tensor", f"{label}:{name} dtype/shape {t.dtype}{list(t.shape)} vs "
                             f"{orig.dtype}{list(orig.shape)}"))
-        extra = set(by_name) - {k[1] for k in expected}
+        extra = set(by_name) - set(expected)
         if extra:
             out.append(("roundtrip-tensor", f"unexpected initializers after load: {sorted(extra)}"))
         for t in by_name.values():
@@ -515,7 +522,8 @@ def check_saved(built, before, full_model_path, files_before):
         p2 = onnx.load(full_model_path, load_external_data=True)
         for label, g in _proto_graphs(p2.graph):
             for tp in g.initializer:
-                raw = [r for (l2, n2), r in expected.items() if n2 == tp.name]
+                glabel = "main" if label == "main" else (g.name or label)
+                raw = [r for (l2, n2), r in expected.items() if n2 == tp.name and l2 == glabel]
                 if not raw or tp.data_type == onnx.TensorProto.STRING:
                     continue
                 got = onnx.numpy_helper.to_array(tp).tobytes()
